@@ -8,6 +8,8 @@ import ModVerif.Spec.NoteSpec
 import ModVerif.Proofs.Note
 import ModVerif.Proofs.NoteRoundtrip
 import ModVerif.Proofs.NoteKeys
+import ModVerif.Proofs.NoteFullOpen
+import ModVerif.Proofs.NoteFullResign
 namespace ModVerif.Props.C07
 open ModVerif ModVerif.Note ModVerif.B64
 
@@ -255,6 +257,66 @@ theorem open_ambiguous_fails {msg : Bytes} {known : Verifiers} {split : Nat} {li
   · rw [hk] at hu; cases hu
   · rw [hk] at hv; cases hv
 
+/-- `open_ok_iff`: the exact acceptance condition of `Open`, for ARBITRARY messages (converse of `open_partition` and
+    `open_sound` included).  `Open msg known` returns the note `n` if and only if
+    * the message is valid UTF-8 without ASCII control characters other than newline,
+    * it splits at its LAST blank line into a text (ending in a newline) and a non-empty block ending in a newline,
+    * every line of the block is a well-formed signature line, and there are at most 100 of them,
+    * every lookup answers "unknown", or "found" with a verifier of exactly the line's name and hash
+      (`LookOK`; so no ambiguous, failing or mismatching lookup),
+    * the FIRST line of every known key carries a signature that key's verifier accepts over the text (`FirstVerified`;
+      later lines of the same key are not examined — O4),
+    * at least one line is by a known key,
+    and `n` is the text together with the partition of the lines described by `open_partition`. -/
+theorem open_ok_iff {msg : Bytes} {known : Verifiers} {n : Note} :
+    Open msg known = .ok n ↔
+      validMsg msg = true ∧ ∃ split ps, lastIndexOf sigSplit msg = some split ∧
+        msg.drop (split + 2) ≠ [] ∧ (msg.drop (split + 2)).getLast? = some 10 ∧
+        parseAll (sigLines (msg.drop (split + 2))) = some ps ∧ ps.length ≤ maxSigs ∧
+        (∀ p ∈ ps, LookOK known p) ∧ FirstVerified known (msg.take (split + 1)) [] ps ∧
+        (∃ p ∈ ps, isKnown known p = true) ∧
+        n = ⟨msg.take (split + 1),
+          (dedupFrom (fun p : SigLine => (p.name, p.hash)) [] (ps.filter (isKnown known))).map SigLine.toSig,
+          (dedupFrom (fun p : SigLine => p.line) [] (ps.filter (isUnknown known))).map SigLine.toSig⟩ :=
+  Open_ok_iff
+
+/-- `sign_existing_roundtrip`: re-signing an opened note.  Let `n` be a note returned by `Open msg known` (it carries
+    verified and possibly unverified signatures, with whatever base64 text the message had), and `ss` further signers
+    with valid names whose `Sign` succeeds with a non-empty signature over `n.text`, each either unknown to `known` or
+    known under its own name and hash with a verifier accepting its signature (honest keys), at most 100 signatures in
+    total.  Then `Sign n ss` succeeds; the message is `n.text ‖ "
+" ‖` the existing signatures of `n` whose
+    (name, hash) is not that of a new signer — verified ones first, then unverified, in order, byte for byte —
+    followed by one line per new signer; and `Open` of that message returns exactly `n.text`, the signatures of known
+    keys as verified (first per key) and those of unknown keys as unverified (identical lines once). -/
+theorem sign_existing_roundtrip {msg : Bytes} {known : Verifiers} {n : Note} {ss : List Signer}
+    (hopen : Open msg known = .ok n)
+    (hnames : ∀ s ∈ ss, isValidName s.name = true)
+    (hcount : n.sigs.length + n.unverifiedSigs.length + ss.length ≤ maxSigs)
+    (hsign : ∀ s ∈ ss, ∃ x, s.sign n.text = some x ∧ x ≠ [])
+    (hlook : ∀ s ∈ ss, ∀ x, s.sign n.text = some x →
+      known s.name s.hash = .unknown ∨
+      ∃ k, known s.name s.hash = .found k ∧ k.name = s.name ∧ k.hash = s.hash ∧ k.verify n.text x = true) :
+    let kept := (n.sigs ++ n.unverifiedSigs).filter
+      (fun g => !(ss.map fun s => (s.name, s.hash)).contains (g.name, g.hash))
+    let all := kept ++ ss.filterMap (sigOfSigner n.text)
+    Sign n ss = .ok (n.text ++ [10] ++ blockOf all) ∧
+    Open (n.text ++ [10] ++ blockOf all) known = .ok ⟨n.text,
+      dedupFrom (fun g : Signature => (g.name, g.hash)) [] (all.filter (sigKnown known)),
+      dedupFrom (fun g : Signature => g.name ++ [32] ++ g.base64) [] (all.filter (sigUnknown known))⟩ := by
+  refine sign_existing_core hopen hcount ?_
+  intro s hs
+  obtain ⟨x, hx, hxne⟩ := hsign s hs
+  exact ⟨hnames s hs, x, hx, hxne, hlook s hs x hx⟩
+
+/-- Every note `Open` returns can be signed again as it is (no new signers): all its signatures are well-formed,
+    its text is valid, and opening the re-written message gives the same text. -/
+theorem sign_existing_no_new {msg : Bytes} {known : Verifiers} {n : Note} (hopen : Open msg known = .ok n)
+    (hcount : n.sigs.length + n.unverifiedSigs.length ≤ maxSigs) :
+    ∃ msg' n', Sign n [] = .ok msg' ∧ Open msg' known = .ok n' ∧ n'.text = n.text := by
+  have h := sign_existing_roundtrip (ss := []) hopen (by simp) (by simpa using hcount) (by simp) (by simp)
+  exact ⟨_, _, h.1, h.2, rfl⟩
+
 /-! ## Non-vacuity: concrete instances of the hypotheses -/
 
 namespace Ex
@@ -366,5 +428,22 @@ example : (NewVerifier (fun _ => [0, 0, 0, 1]) (fun _ _ _ => true)
 example : (NewSigner (fun _ => [0, 0, 0, 1]) (fun _ => List.replicate 32 0) (fun _ _ => [])
       ([80, 82, 73, 86, 65, 84, 69, 43, 75, 69, 89, 43, 97, 43, 48, 48, 48, 48, 48, 48, 48, 49, 43] ++
         b64enc (1 :: List.replicate 32 7))).toOption.map (fun s => (s.name, s.hash)) = some ([97], 1) := by decide +kernel
+
+/-- `open_ok_iff` / `sign_existing_roundtrip`: the example message opens; a further (unknown) signer "b" satisfies the
+    hypotheses for re-signing the opened note -/
+example : ∃ n, Open Ex.msg (VerifierList [Ex.vA]) = .ok n ∧
+    (∀ s ∈ [Ex.sB], isValidName s.name = true) ∧ n.sigs.length + n.unverifiedSigs.length + [Ex.sB].length ≤ maxSigs ∧
+    (∀ s ∈ [Ex.sB], ∃ x, s.sign n.text = some x ∧ x ≠ []) ∧
+    (∀ s ∈ [Ex.sB], ∀ x, s.sign n.text = some x → VerifierList [Ex.vA] s.name s.hash = .unknown ∨
+      ∃ k, VerifierList [Ex.vA] s.name s.hash = .found k ∧ k.name = s.name ∧ k.hash = s.hash ∧ k.verify n.text x = true) := by
+  refine ⟨_, by rfl, ?_, by decide, ?_, ?_⟩
+  · intro s hs; simp only [List.mem_singleton] at hs; subst hs; rfl
+  · intro s hs; simp only [List.mem_singleton] at hs; subst hs; exact ⟨[9], rfl, by simp⟩
+  · intro s hs x _; simp only [List.mem_singleton] at hs; subst hs; left; rfl
+
+/-- … and evaluated: the re-signed message keeps the existing line byte for byte, appends the new one, and opens to the
+    same text with the old signature verified and the new one unverified -/
+example : (Sign ⟨Ex.t, [⟨[97], 1, Ex.b64⟩], []⟩ [Ex.sB]).toOption.map (fun m => (Open m (VerifierList [Ex.vA])).toOption)
+    = some (some ⟨Ex.t, [⟨[97], 1, Ex.b64⟩], [⟨[98], 7, b64enc (putU32 7 ++ [9])⟩]⟩) := by decide +kernel
 
 end ModVerif.Props.C07
